@@ -36,7 +36,7 @@ def piece(draw):
     if k == 6:
         return ("q",)
     if k == 7:
-        chars = draw(st.lists(st.sampled_from(list("abcABC123xyz")), min_size=1, max_size=3, unique=True))
+        chars = draw(st.lists(st.sampled_from(list("abcABC123xyz\u00e9\u00e8\u4e2d")), min_size=1, max_size=3, unique=True))
         return ("set", False, "".join(chars))
     if k == 8:
         chars = draw(st.lists(st.sampled_from(list("abcABC123xyz")), min_size=1, max_size=3, unique=True))
@@ -65,14 +65,15 @@ def render(pieces):
 def instance(draw, pieces, mutate):
     """a name built to match the pattern (mutate=None) or to just miss it"""
     s = []
-    others = "qQ7#"
+    # (multi-byte characters too: '?' and a bracket expression consume one CHARACTER)
+    others = "qQ7#\u00e9\u65e5"
     for p in pieces:
         if p[0] == "lit":
             s.append(p[1])
         elif p[0] == "star":
-            s.append(draw(st.text(alphabet="ab. Z", max_size=3)))
+            s.append(draw(st.text(alphabet="ab. Z\u00e9\u4e2d", max_size=3)))
         elif p[0] == "q":
-            s.append(draw(st.sampled_from(list("ab.Z "))))
+            s.append(draw(st.sampled_from(list("ab.Z \u00e9\u00ef\u4e2d\U0001f600"))))
         elif p[0] == "set":
             s.append(draw(st.sampled_from(list(others))) if p[1] else draw(st.sampled_from(list(p[2]))))
         else:
